@@ -337,6 +337,19 @@ func faultOracle(s *Spec, keys [][]byte, stats *faultStats, pairs bool) func(w *
 				return vv
 			}
 		}
+		// ---- imports (into a fresh store) ----
+		if len(hist) > 0 && hist[len(hist)-1].Kind == OpSave {
+			wI, v := replay(s, hist)
+			if v == nil {
+				vv := importFaults(s, wI, hist, probes, stats)
+				wI.Close()
+				if vv != nil {
+					return vv
+				}
+			} else {
+				wI.Close()
+			}
+		}
 		// ---- write operations ----
 		for _, op := range writeOps(w0) {
 			wA, v := replay(s, hist)
